@@ -33,13 +33,13 @@ theorem C01_roundtrip_dyn (L : DynLeaves MF Tok) {mode : Mode} (S : Sound L mode
       .done (dataAfterAll [] ops (run L c (WState.init L dst) ops).2).toArray rest st ∧
       rest.length < 8 ∧ ∀ b ∈ rest, b = false := by
   have ht := run_tracks L S c hw ops [] (WState.init L dst) (tracks_init L S dst hh hd) hops hok
-  obtain ⟨c1, _, c3⟩ := close_tracks L S c _ _ ht
+  obtain ⟨c1, _, c3, _⟩ := close_tracks L S c _ _ ht
   exact ⟨c1, closedStream_inflate c3⟩
 
 theorem C01_empty (L : DynLeaves MF Tok) {mode : Mode} (S : Sound L mode) (c : Cfg)
     (dst : Dst) (hh : dst.Healthy) (hd : dst.got = []) :
     ∃ st rest, inflate mode [] (close L c (WState.init L dst)).1.dst.bytes = .done #[] rest st := by
-  obtain ⟨_, _, c3⟩ := close_tracks L S c _ _ (tracks_init L S dst hh hd)
+  obtain ⟨_, _, c3, _⟩ := close_tracks L S c _ _ (tracks_init L S dst hh hd)
   obtain ⟨st, rest, h, _⟩ := closedStream_inflate c3
   exact ⟨st, rest, h⟩
 
@@ -51,7 +51,7 @@ theorem C01_roundtrip_huff {σ : Type} (L : HuffLeaf σ) {mode : Mode} (S : HSou
       .done (dataAfterAll [] ops (hRun L max (HState.init L dst) ops).2).toArray rest st ∧
       rest.length < 8 ∧ ∀ b ∈ rest, b = false := by
   have ht := hRun_tracks L S max ops [] (HState.init L dst) ⟨rfl, hinv_init mode L.init dst hh hd⟩ hops hok
-  obtain ⟨c1, _, c3⟩ := hClose_tracks L S _ _ ht
+  obtain ⟨c1, _, c3, _⟩ := hClose_tracks L S _ _ ht
   exact ⟨c1, closedStream_inflate c3⟩
 
 /-- every accepted Write reports the full length on a healthy destination unless it stopped for lack of
